@@ -297,8 +297,13 @@ def gen_program(rng, gen, n=None, length=None, small=True, allow=None, prefix=Tr
             # multi-mode matrix operations on an ordered subset
             k = int(rng.integers(2, n + 1))
             modes = [int(x) for x in rng.choice(n, k, replace=False)]
-            choice = str(rng.choice([x for x in ["Interferometer", "GaussianTransform", "PassiveChannel", "Gaussian"]
-                                     if x in allow] or ["Interferometer"]))
+            avail = [x for x in ["Interferometer", "GaussianTransform", "PassiveChannel", "Gaussian"] if x in allow]
+            if not avail:
+                nm = str(rng.choice(pool1))
+                cmds.append({"op": nm, "p": gen_params(rng, nm, small, gen), "m": [int(rng.integers(n))],
+                             "dag": bool(nm in ONE_GATES and rng.random() < p_dagger)})
+                continue
+            choice = str(rng.choice(avail))
             if choice == "Interferometer":
                 cmds.append({"op": choice, "p": [enc(gen.haar(rng, k))], "m": modes, "dag": False,
                              "kw": {"mesh": str(rng.choice(["rectangular", "rectangular_phase_end", "rectangular_symmetric",
